@@ -1,4 +1,4 @@
-import VelaVerif.Lemmas.ConfigRefine
+import VelaVerif.Lemmas.ConfigMain
 /-!
 # C18 — system configuration and memory mode resolve as documented
 
@@ -11,7 +11,7 @@ The enum names, parser defaults, live default architectures, probed legal areas,
 -/
 namespace VelaVerif.Props.C18
 open VelaVerif VelaVerif.Config
-open VelaVerif.Spec.Config (chain nearest specArch specCheck Verdict)
+open VelaVerif.Spec.Config (chain nearest specArch specArchFeatures specMain specCheck Verdict)
 
 /-! ## 1. Inheritance: a section overrides what it inherits, transitively -/
 
@@ -410,5 +410,155 @@ def exBundled : Input :=
 example : (getVelaConfig exBundled).toOption.map
       (fun a => (a.arenaCacheSize, a.constPort, a.arenaPort, a.cachePort)) = some (524288, .axi1, .axi1, .axi0) := by
   decide
+
+/-- the same for the constructor call `ArchitectureFeatures(files, accelerator, system_config, memory_mode, …,
+    arena_cache_size)` with files on disk: unknown accelerator, unreadable/unparsable files, merge of several
+    files, then the rules above -/
+theorem direct_construction_meets_documented_rules (env : Env) (files : Option (List String))
+    (acc sys mem : String) (cli : Option Int) :
+    specCheck (specArchFeatures env files acc sys mem cli) (archFeatures env files 0 acc sys mem cli).toOption = true :=
+  specCheck_of_refines (archFeatures_refines env files acc sys mem cli)
+
+/-! ## 6. `vela.main`: the command line -/
+
+/-- **main_fixed_meets_documented_rules.**  The argument handling of `main()` *with the repairs proposed in
+    design.d/C18.md* (`Variant.documented`: the resolved `config_files` are handed to `ArchitectureFeatures`,
+    `--arena-cache-size` has no parser default, no undocumented i.MX93 default configuration, the documented
+    accelerator default) follows the documented rules for every file system, working directory and command line:
+    `.ini` extension, `Dir/file.ini` under the bundled directory, other paths as given, unreadable files rejected,
+    several `--config` merged, selections, CLI size. -/
+theorem main_fixed_meets_documented_rules (env : Env) (a : MainArgs) :
+    specCheck (specMain env a) (mainArch Variant.documented env a).toOption = true :=
+  specCheck_of_refines (mainArch_refines env a)
+
+/-- **bundled_lookup.**  When `main()` hands on the paths it resolved (`passResolved`), the bundled directory
+    is absolute and every `--config` has the shape `Dir/file.ini`, the outcome does not depend on the working
+    directory the tool is started from — whatever the other switches of the variant are. -/
+theorem bundled_lookup (v : Variant) (hv : v.passResolved = true) (env : Env)
+    (hb : env.bundled.toList.head? = some '/') (cwd1 cwd2 : String) (a : MainArgs)
+    (hall : ∀ c ∈ a.configs, twoComponents (normpath c).toList = true) :
+    mainArch v { env with cwd := cwd1 } a = mainArch v { env with cwd := cwd2 } a :=
+  mainArch_cwd_independent v hv env hb cwd1 cwd2 a hall
+
+/-- and such a name is looked up under the bundled directory -/
+theorem bundled_lookup_target (env : Env) (c : String) (h : twoComponents (normpath c).toList = true) :
+    configTarget env c = pathJoin env.bundled (normpath c) := by
+  simp [configTarget, h]
+
+example : twoComponents (normpath "Arm/vela.ini").toList = true := by decide
+example : twoComponents (normpath "./Arm//vela.ini").toList = true := by decide
+example : twoComponents (normpath "/abs/vela.ini").toList = false := by decide
+example : twoComponents (normpath "vela.ini").toList = false := by decide
+example : twoComponents (normpath "../Arm/vela.ini").toList = false := by decide
+example : twoComponents (normpath "a/b/vela.ini").toList = false := by decide
+
+/-! ### the code as written: witnesses (reproduced on the real `vela.main` by the correspondence run) -/
+
+def wIni : Ini :=
+  [ ("System_Config.Sys", [("core_clock", "1e9"), ("axi0_port", "Sram"), ("axi1_port", "Dram")]),
+    ("Memory_Mode.Parent", [("const_mem_area", "Axi1"), ("arena_mem_area", "Axi1"), ("cache_mem_area", "Axi0"),
+      ("arena_cache_size", "393216")]),
+    ("Memory_Mode.Child", [("inherit", "Memory_Mode.Parent"), ("arena_cache_size", "524288")]) ]
+
+def wEnv (cwd : String) : Env := ⟨"/pkg/config_files", cwd, [("/pkg/config_files/Vendor/soc.ini", some wIni)]⟩
+
+def wArgs : MainArgs := ⟨["Vendor/soc.ini"], some "ethos-u65-256", some "Sys", some "Child", none⟩
+
+/-- **bundled_lookup_witness** (statement "`Dir/file.ini` is looked up in the bundled directory" is false of
+    the unchanged `main()`, which passes `args.config` on): the documented command line fails with "Section not
+    found" from a working directory other than the bundled one, and works from the bundled one. -/
+theorem bundled_lookup_witness :
+    mainArch ⟨false, none, 0, "ethos-u65-256"⟩ (wEnv "/home/user") wArgs = .error .cliSystemConfig ∧
+    (mainArch ⟨false, none, 0, "ethos-u65-256"⟩ (wEnv "/pkg/config_files") wArgs).toOption.map (·.arenaCacheSize)
+      = some 524288 ∧
+    (mainArch ⟨true, none, 0, "ethos-u65-256"⟩ (wEnv "/home/user") wArgs).toOption.map (·.arenaCacheSize)
+      = some 524288 ∧
+    specCheck (specMain (wEnv "/home/user") wArgs)
+      (mainArch ⟨false, none, 0, "ethos-u65-256"⟩ (wEnv "/home/user") wArgs).toOption = false := by decide
+
+/-- **parser_default_shadows_file.**  With a parser default `d` for `--arena-cache-size`, every accepted
+    invocation that does not give the option uses `d`: no memory mode's `arena_cache_size` and not the
+    documented fallback can take effect. -/
+theorem parser_default_shadows_file (v : Variant) (d : Int) (hv : v.cliDefault = some d) (env : Env) (a : MainArgs)
+    (ha : a.arenaCacheSize = none) (r : Arch) (h : mainArch v env a = .ok r) : r.arenaCacheSize = d := by
+  simp only [mainArch, ha, hv] at h
+  split at h
+  · cases h
+  · split at h
+    · cases h
+    · split at h
+      · exact archFeatures_ok_cli h
+      · exact archFeatures_ok_cli h
+
+/-- … witness: the file says 524288 (child overriding 393216), the documented rules expect 524288, the
+    parser default 393216 wins -/
+theorem parser_default_witness :
+    (mainArch ⟨true, some 393216, 0, "ethos-u65-256"⟩ (wEnv "/home/user") wArgs).toOption.map (·.arenaCacheSize)
+      = some 393216 ∧
+    specCheck (specMain (wEnv "/home/user") wArgs)
+      (mainArch ⟨true, some 393216, 0, "ethos-u65-256"⟩ (wEnv "/home/user") wArgs).toOption = false := by decide
+
+/-- **imx93_default_witness**: without any configuration option `main()` uses `Imx93ArchitectureFeatures`;
+    its default system configuration (Dram at 0.234375, no Ethos-U55 branch) is not the documented one -/
+theorem imx93_default_witness :
+    specCheck (specMain (wEnv "/") ⟨[], some "ethos-u55-128", none, none, none⟩)
+      (mainArch ⟨true, none, 1, "ethos-u65-256"⟩ (wEnv "/") ⟨[], some "ethos-u55-128", none, none, none⟩).toOption = false ∧
+    specCheck (specMain (wEnv "/") ⟨[], some "ethos-u65-256", none, none, none⟩)
+      (mainArch ⟨true, none, 1, "ethos-u65-256"⟩ (wEnv "/") ⟨[], some "ethos-u65-256", none, none, none⟩).toOption = false ∧
+    specCheck (specMain (wEnv "/") ⟨[], some "ethos-u65-256", none, none, none⟩)
+      (mainArch ⟨true, none, 0, "ethos-u65-256"⟩ (wEnv "/") ⟨[], some "ethos-u65-256", none, none, none⟩).toOption = true := by
+  decide
+
+/-! ## 7. Regenerated tables: enums, live defaults, probed legal areas, documents -/
+
+/-- the enum members the model knows are exactly the live ones (names and values), and the option keys are
+    the lower-cased names -/
+theorem enum_names_match :
+    MemArea.all.map (fun a => (a.name, a.toNat)) = Gen.Cfg.memAreaNames ∧
+    MemPort.all.map (fun p => (p.name, p.toNat)) = Gen.Cfg.memPortNames ∧
+    MemArea.all.all (fun a => a.key == lowerStr a.name) = true := by decide
+
+/-- the memory areas the live `ArchitectureFeatures` accepts for constants / arena / cache (probed every run)
+    are the ones of the model, of the documented rules and of the property text -/
+theorem legal_sets_match_live :
+    Gen.Cfg.legalConst = (MemArea.all.filter legalConstArea).map MemArea.name ∧
+    Gen.Cfg.legalArena = (MemArea.all.filter legalArenaArea).map MemArea.name ∧
+    Gen.Cfg.legalCache = (MemArea.all.filter legalCacheArea).map MemArea.name ∧
+    Gen.Cfg.legalConst = ["Dram", "OnChipFlash", "OffChipFlash"] ∧
+    Gen.Cfg.legalArena = ["Sram", "Dram"] ∧ Gen.Cfg.legalCache = ["Sram"] := by decide
+
+/-- accelerator names, family and address width (32-bit U55, 40-bit U65) -/
+theorem accelerators_match_documented :
+    Gen.accelerators.map (fun r => (r.name, r.isU65, r.maxAddressOffset)) =
+      Spec.Config.docAccelerators.map (fun p => (p.1, p.2, Spec.Config.docMaxAddr p.2)) := by decide
+
+def toRawDy (d : Dy) : Gen.Cfg.RawDy := ⟨d.neg, d.m, d.e⟩
+def toRawRow (r : Row) : Gen.Cfg.RawRow := ⟨toRawDy r.scale, r.burst, r.rlat, r.wlat⟩
+def toRaw (a : Arch) : Gen.Cfg.RawArch :=
+  { coreClock := toRawDy a.coreClock, axi0 := a.axi0.toNat, axi1 := a.axi1.toNat,
+    tab := ⟨toRawRow a.tab.unknown, toRawRow a.tab.sram, toRawRow a.tab.dram, toRawRow a.tab.onChipFlash,
+            toRawRow a.tab.offChipFlash, toRawRow a.tab.shram⟩,
+    constPort := a.constPort.toNat, arenaPort := a.arenaPort.toNat, cachePort := a.cachePort.toNat,
+    arenaCacheSize := a.arenaCacheSize, permanent := a.permanent.toNat, featureMap := a.featureMap.toNat,
+    fast := a.fast.toNat }
+
+/-- what the live `create_default_arch` resolves for each accelerator is what the model computes … -/
+theorem live_defaults_match_model :
+    Gen.Cfg.defaultArch.map (fun p =>
+        (archFeatures ⟨"/", "/", []⟩ none 0 p.1 defaultName defaultName none).toOption.map toRaw) =
+      Gen.Cfg.defaultArch.map (fun p => some p.2) ∧
+    Gen.Cfg.defaultArch.map (·.1) = Gen.accelerators.map (·.name) := by decide
+
+/-- … and the hard-coded `internal-default` values are the sections of the bundled example file that OPTIONS.md
+    names (live document, live `vela.ini`) -/
+theorem internal_defaults_are_documented_sections (b : Bool) (maxAddr : Nat) :
+    Spec.Config.docInternalSys b = .accept (sysTuple (defaultSys b)) ∧
+    Spec.Config.docInternalMem b maxAddr = .accept (memTuple (defaultMem b maxAddr)) :=
+  ⟨docInternalSys_eq b, docInternalMem_eq b maxAddr⟩
+
+/-- parser defaults that select the internal defaults; no `--config` by default -/
+theorem cli_defaults_select_internal_default :
+    Gen.Cfg.cliSystemConfig = Spec.Config.internalDefault ∧ Gen.Cfg.cliMemoryMode = Spec.Config.internalDefault ∧
+    Gen.Cfg.cliConfigDefaultIsNone = true ∧ defaultName = Spec.Config.internalDefault := by decide
 
 end VelaVerif.Props.C18
